@@ -50,6 +50,11 @@ func (x *Exec) callValue(st *State, fv Value, args []Value, sig *types.Signature
 		x.ifaceEvent(st, f.recv, f.name, f.sig, args, pos, k)
 	case nil:
 		x.oblige(st, "safety", "nil-func-call:"+x.srcAt(pos), []string{"C13"}, False, pos)
+	case *Term:
+		// a function value read out of a data structure: unknown code, results unconstrained
+		results := x.havocResults(sig, "dyncall")
+		x.recordEvent(st, "dyncall", args, results)
+		k(st, results)
 	default:
 		x.outside = fmt.Sprintf("call of %T", fv)
 		k(st, x.havocResults(sig, "dyncall"))
@@ -662,6 +667,13 @@ func (x *Exec) recordEvent(st *State, kind string, args []Value, results []Value
 			t = StrT("param:" + fv.name)
 		case *BoundMethodV:
 			t = StrT("method:" + fv.name)
+		case *PtrV:
+			// a receiver / pointer argument is logged as a snapshot of its pointee at the time of the call
+			if len(fv.path) == 0 {
+				if cur, ok := st.cells[fv.cell].(*Term); ok {
+					t = cur
+				}
+			}
 		}
 		if a == nil {
 			t = StrT("")
